@@ -31,15 +31,19 @@ const (
 	KRef
 )
 
-// Argument forms of Query.arg.
+// Argument forms of Query.arg (leaf) and Query.targ (composite; added to the probe schema by
+// this check: extend type Query { targ(x: Int = 6): T }).
 const (
-	ArgNone = iota // arg                    -> x = 7 (schema default), y absent
+	ArgNone = iota // arg                    -> x = schema default (arg: 7, targ: 6), y absent
 	ArgLit         // arg(x: 3)
 	ArgVar         // arg(x: $v)             -> depends on the variable mode
 	ArgBoth        // arg(x: 2, y: ["p","q"])
 	ArgNeg         // arg(x: -4)             -> custom "child+x" becomes negative
 	ArgNull        // arg(x: null)
 )
+
+// argDefault: schema default of argument x per field with arguments.
+var argDefault = map[string]int64{"Query.arg": 7, "Query.targ": 6}
 
 // Variable modes for operations that use $v.
 const (
@@ -84,7 +88,7 @@ var scalars = map[string]bool{"String": true, "ID": true, "Int": true}
 
 var schemaTab = map[string]*typeDef{
 	"Query": {Kind: "OBJECT", Objects: []string{"Query"}, Fields: []fieldDef{
-		{"t", "T"}, {"tReq", "T"}, {"ts", "T"}, {"node", "Node"}, {"u", "U"}, {"str", "String"}, {"strReq", "String"}, {"arg", "String"}}},
+		{"t", "T"}, {"tReq", "T"}, {"ts", "T"}, {"node", "Node"}, {"u", "U"}, {"str", "String"}, {"strReq", "String"}, {"arg", "String"}, {"targ", "T"}}},
 	"Mutation": {Kind: "OBJECT", Objects: []string{"Mutation"}, Fields: []fieldDef{{"m1", "T"}, {"m2", "T"}, {"m3", "String"}}},
 	"T": {Kind: "OBJECT", Objects: []string{"T"}, Fields: []fieldDef{
 		{"id", "ID"}, {"name", "String"}, {"req", "String"}, {"plain", "String"}, {"plainReq", "String"},
@@ -123,14 +127,15 @@ func overlap(a, b string) bool {
 // ---- grammar ----
 
 type Grammar struct {
-	Fields   map[string][]string // type -> field alphabet (may contain __typename)
-	Alias    map[string]bool     // "Type.field" -> the aliased variant is enumerated too
-	ArgForms []int
-	Conds    []string // type conditions tried for fragments (filtered by overlap with the parent)
-	VarModes []int
-	Roots    []string
-	memoS    map[string][][]*Node
-	memoN    map[string][]*Node
+	Fields    map[string][]string // type -> field alphabet (may contain __typename)
+	Alias     map[string]bool     // "Type.field" -> the aliased variant is enumerated too
+	ArgForms  []int               // forms of Query.arg
+	TargForms []int               // forms of Query.targ
+	Conds     []string            // type conditions tried for fragments (filtered by overlap with the parent)
+	VarModes  []int
+	Roots     []string
+	memoS     map[string][][]*Node
+	memoN     map[string][]*Node
 }
 
 func (g *Grammar) sets(parent string, n int) [][]*Node {
@@ -191,9 +196,15 @@ func (g *Grammar) nodes(parent string, k int) []*Node {
 		if k < 2 {
 			continue
 		}
+		forms := []int{ArgNone}
+		if parent == "Query" && fname == "targ" {
+			forms = g.TargForms
+		}
 		for _, a := range aliases {
-			for _, kids := range g.sets(ft, k-1) {
-				out = append(out, &Node{Kind: KField, Name: fname, Alias: a, Kids: kids})
+			for _, f := range forms {
+				for _, kids := range g.sets(ft, k-1) {
+					out = append(out, &Node{Kind: KField, Name: fname, Alias: a, Arg: f, Kids: kids})
+				}
 			}
 		}
 	}
